@@ -45,6 +45,8 @@ def run_one(prop, m, keep_output=False):
             ok = r.returncode == 1 and viol
         elif exp == 'undecided-or-violation':      # the edit uses a construct outside the subset: never a pass
             ok = r.returncode in (1, 2)
+        elif exp == 'undecided':                   # a harmless edit the structural test cannot recognise: exit 2, never a VIOLATION line
+            ok = r.returncode == 2 and not viol
         else:
             ok = r.returncode == 0 and not viol
         return dict(name=m['name'], ok=bool(ok), rc=r.returncode, expect=exp, violations=len(viol),
